@@ -212,6 +212,35 @@ Section LearnCor.
     destruct (trace_iterate ao n draws st it (nth_error_In _ _ Hi)) as (prev & Hit).
     exists (fi_Xv it). unfold X, Y. rewrite Hs, Hnd. cbn [fst snd]. rewrite Hit at 1. reflexivity.
   Qed.
+  (* what the records fed to Model/Learn.learn are *)
+  Theorem learn_full_records n draws (st : lstate nat) :
+    let r := learn_full ltb zero top w QAcc n draws st in
+    let tr := fr_trace r in
+    let code a := qrank (trace_accs tr) a in
+    (forall i it, nth_error tr i = Some it ->
+       let s := state_at (its_of tr) i draws st in
+       let fitted := fit_on (l_Xt s) (l_Yt s) in
+       let pass := predict_on (l_Xt s) fitted (l_Xv s) in
+       it = iterate ltb zero top w QAcc (prev_at 0%Q tr i) s /\
+       fi_nodes it = fst pass /\ fi_preds it = snd pass /\
+       fi_acc it = opf_accuracy (l_Yv s) (snd pass) /\
+       nth_error (its_of tr) i =
+         Some (mkIter (code (fi_acc it)) (fi_errs it) (n_status (fi_nodes it)) (fi_small it))) /\
+    (forall it it', In it tr -> In it' tr ->
+       ((code (fi_acc it') < code (fi_acc it))%Z <-> (fi_acc it' < fi_acc it)%Q)).
+  Proof.
+    intros r tr code. split.
+    - intros i it Hi s fitted pass.
+      pose proof (learn_full_trace_spec ltb zero top w QAcc (qrank (trace_accs tr)) n draws st i it Hi) as H.
+      change (it = iterate ltb zero top w QAcc (prev_at 0%Q tr i) s) in H.
+      split; [exact H|].
+      split; [rewrite H at 1; reflexivity|]. split; [rewrite H at 1; reflexivity|].
+      split; [rewrite H at 1; reflexivity|].
+      unfold its_of. rewrite nth_error_map. fold tr. rewrite Hi. reflexivity.
+    - intros it it' Hin Hin'. unfold code. rewrite <- Z.ltb_lt, qrank_lt.
+      + apply Qltb_lt.
+      + unfold trace_accs. now apply in_map.
+  Qed.
 End LearnCor.
 
 (* ------------------------------------------------------------------------------------ *)
@@ -367,6 +396,15 @@ Section PruneCor.
     pose proof (prune_rounds_fit ltb zero top w n _ _ _ fin (prune_full_in ltb zero top w n st)) as Hf.
     fold X' Y' in Hf. split; rewrite Hf at 1; reflexivity.
   Qed.
+  Theorem prune_full_refines_len n (st : lstate nat) :
+    let rs := prune_rounds ltb zero top w n (l_Xt st) (l_Yt st) (l_Xv st) in
+    let fin := prune_full ltb zero top w n st in
+    length rs = S n /\
+    (pr_X fin, pr_Y fin) =
+      prune (map (fun r => n_relevant (pr_nodes r)) (removelast rs)) (l_Xt st) (l_Yt st).
+  Proof.
+    intros rs fin. split; [apply rounds_length|]. apply (prune_full_refines ltb zero top w n st).
+  Qed.
 End PruneCor.
 
 (* ------------------------------------------------------------------------------------ *)
@@ -491,6 +529,16 @@ Section ClassInv.
     two_classes (l_Yt st) -> In it (fr_trace (learn_full ltb zero top w ao n_iterations draws st)) ->
     two_classes (fi_Y it).
   Proof. intros Hcls Hin. unfold learn_full in Hin. eapply loop_two_classes; eauto. Qed.
+  Theorem learn_full_keeps_two_classes n_iterations draws (st : lstate nat) :
+    two_classes (l_Yt st) ->
+    let r := learn_full ltb zero top w ao n_iterations draws st in
+    (forall it, In it (fr_trace r) -> two_classes (fi_Y it)) /\
+    (1 <= n_iterations -> two_classes (snd (r_snap (fr_res r)))).
+  Proof.
+    intros Hcls r. split.
+    - intros it Hin. eapply learn_full_trace_two_classes; eauto.
+    - intros Hn. apply learn_full_snapshot_two_classes; assumption.
+  Qed.
 End ClassInv.
 
 (* ------------------------------------------------------------------------------------ *)
@@ -537,3 +585,118 @@ Proof.
     as (H1 & H2 & H3).
   split; [exact H1|]. split; [exact H2|]. apply opf_spec_W_Z. exact H3.
 Qed.
+
+(* ------------------------------------------------------------------------------------ *)
+(* the guard: fit finds a prototype iff the training set has two classes                  *)
+
+Section Guard.
+  Context {W : Type}.
+  Variable ltb : W -> W -> bool.
+  Hypothesis O : strict_total_order ltb.
+  Variables zero top : W.
+  Variable w : nat -> nat -> W.
+  Hypothesis Hzt : ltb zero top = true.
+  Hypothesis Hw : forall a b, ltb (w a b) zero = false /\ ltb (w a b) top = true.
+
+  Lemma seed_fold_no_proto : forall l h (nd : @nodes W),
+    (forall i, nth i (n_status nd) false = false) ->
+    exists h', fold_left (seed_step ltb zero top) l (h, nd) = (h', nd) /\ hn h' = hn h.
+  Proof.
+    induction l as [|i l IH]; intros h nd Hno; [exists h; split; reflexivity|].
+    cbn [fold_left]. unfold seed_step at 2. rewrite (Hno i).
+    destruct (IH (set_cost h i top) nd Hno) as (h' & E & Hn). exists h'. split; [exact E|].
+    rewrite Hn. reflexivity.
+  Qed.
+
+  (* without a prototype the competition never starts: the node table comes back unchanged *)
+  Lemma compete_no_proto semi nl n wX (nd : @nodes W) :
+    (forall i, nth i (n_status nd) false = false) ->
+    compete ltb zero top semi nl n wX nd = nd.
+  Proof.
+    intros Hno. unfold compete.
+    destruct (seed_fold_no_proto (seq 0 n) (h_init top n PMin) nd Hno) as (h' & E & Hn).
+    rewrite E. destruct n as [|n]; [reflexivity|]. cbn [fit_loop].
+    unfold remove, is_empty. rewrite Hn. reflexivity.
+  Qed.
+
+  Theorem fit_ok_iff_two_classes X Y :
+    1 <= length Y ->
+    (fit_ok (fit_on ltb zero top w X Y) = true <-> two_classes Y).
+  Proof.
+    intros Hn. set (n := length Y) in *.
+    set (wX := fun p q => w (nth p X 0) (nth q X 0)).
+    assert (HwT : forall p q, p < n -> q < n -> p <> q -> ltb (wX p q) top = true)
+      by (intros p q _ _ _; apply Hw).
+    split.
+    - intros Hok.
+      destruct (List.Exists_dec (fun a => exists b, b < n /\ nth a Y 0 <> nth b Y 0) (seq 0 n)) as [He|Hne].
+      { intros a. destruct (List.Exists_dec (fun b => nth a Y 0 <> nth b Y 0) (seq 0 n)) as [He|Hne].
+        - intros b. destruct (Nat.eq_dec (nth a Y 0) (nth b Y 0)); [right; auto | left; auto].
+        - left. apply Exists_exists in He. destruct He as (b & Hb & Hab). apply in_seq in Hb.
+          exists b. split; [lia | exact Hab].
+        - right. intros (b & Hb & Hab). apply Hne. apply Exists_exists. exists b.
+          split; [apply in_seq; lia | exact Hab]. }
+      + apply Exists_exists in He. destruct He as (a & Ha & b & Hb & Hab). apply in_seq in Ha.
+        exists a, b. repeat split; auto. fold n. lia.
+      + exfalso.
+        assert (Hone : forall a b, a < n -> b < n -> nth a Y 0 = nth b Y 0).
+        { intros a b Ha Hb. destruct (Nat.eq_dec (nth a Y 0) (nth b Y 0)) as [E|E]; [exact E|].
+          exfalso. apply Hne. apply Exists_exists. exists a. split; [apply in_seq; lia|].
+          exists b. split; assumption. }
+        set (fp := find_prototypes ltb top n wX (nodes_init zero Y)).
+        destruct (find_prototypes_lengths_anyorder ltb O zero top n wX Y Hn eq_refl HwT)
+          as (_ & _ & Ls & _ & _ & _ & Lo). fold fp in Ls, Lo.
+        assert (Hno : forall i, nth i (n_status fp) false = false).
+        { intros i. destruct (Nat.lt_ge_cases i n) as [Hi|Hi]; [|apply nth_overflow; lia].
+          destruct (nth i (n_status fp) false) eqn:Ei; [|reflexivity]. exfalso.
+          apply (prototypes_exact_anyorder ltb O zero top n wX Y Hn eq_refl HwT i Hi) in Ei.
+          destruct Ei as (r0 & _ & Hr & Hlab). apply Hlab. apply Hone; assumption. }
+        unfold fit_ok, fit_on, sup_fit in Hok. fold n wX fp in Hok.
+        rewrite (compete_no_proto false n n wX fp Hno), Lo in Hok. discriminate.
+    - intros Hcls.
+      destruct (fit_on_opf ltb O zero top w Hzt Hw X Y Hcls) as ((Hperm & _) & _).
+      unfold fit_ok. destruct (n_order (fit_on ltb zero top w X Y)) as [|x l] eqn:E; [|reflexivity].
+      apply Permutation_length in Hperm. rewrite seq_length in Hperm. cbn in Hperm. fold n in Hperm. lia.
+  Qed.
+End Guard.
+
+(* ------------------------------------------------------------------------------------ *)
+(* prune: every retained sample lay on the root path of a conqueror in the round before  *)
+
+Section PruneRel.
+  Context {W : Type}.
+  Variable ltb : W -> W -> bool.
+  Hypothesis O : strict_total_order ltb.
+  Variables zero top : W.
+  Variable w : nat -> nat -> W.
+  Hypothesis Hzt : ltb zero top = true.
+  Hypothesis Hw : forall a b, ltb (w a b) zero = false /\ ltb (w a b) top = true.
+
+  Theorem prune_full_retained_relevant n_iterations (st : lstate nat) i r r' :
+    let rounds := prune_rounds ltb zero top w n_iterations (l_Xt st) (l_Yt st) (l_Xv st) in
+    nth_error rounds i = Some r -> nth_error rounds (S i) = Some r' ->
+    two_classes (pr_Y r) ->
+    let fitted := fit_on ltb zero top w (pr_X r) (pr_Y r) in
+    let pred q := nth q (n_pred fitted) None in
+    let fl := n_relevant (pr_nodes r) in
+    pr_X r' = keep fl (pr_X r) /\ pr_Y r' = keep fl (pr_Y r) /\
+    same_classifier (pr_nodes r) fitted /\
+    length fl = length (pr_Y r) /\
+    forall t, t < length (pr_Y r) ->
+      (nth t fl false = true <->
+       exists v, In v (l_Xv st) /\ exists c,
+         snd (predict_one ltb zero fitted (fun s => w (nth s (pr_X r) 0) v)) = Some c /\
+         exists k, reaches pred c t k).
+  Proof.
+    intros rounds Hi Hi' Hcls fitted pred fl.
+    destruct (prune_rounds_step ltb zero top w _ _ _ _ i r r' Hi Hi') as (HX & HY).
+    split; [exact HX|]. split; [exact HY|].
+    pose proof (prune_rounds_fit ltb zero top w _ _ _ _ r (nth_error_In _ _ Hi)) as Hfit.
+    split.
+    - rewrite Hfit at 1. unfold prune_fit. cbn [pr_nodes]. apply predict_on_same.
+    - destruct (prune_fit_relevant ltb O zero top w Hzt Hw (pr_X r) (pr_Y r) (l_Xv st) Hcls) as (Hlen & Hiff).
+      assert (E : pr_nodes r = pr_nodes (prune_fit ltb zero top w (pr_X r) (pr_Y r) (l_Xv st)))
+        by (rewrite Hfit at 1; reflexivity).
+      unfold fl. rewrite E. split; [exact Hlen | exact Hiff].
+  Qed.
+End PruneRel.
